@@ -1,2 +1,401 @@
+"""C01 rules R4-R11 (response side, translation coverage, interrupts, close)."""
+from __future__ import annotations
+
+import ast
+
+from .. import astq
+from ..events import EventRule, evs, outcome_name, run_function
+from ..interp import AV, BASE_TOP, EXT_TOP, RESEND, UNK, BaseRule, Out, const, exc, obj, ok_out, raise_out, unk
+from ..model import AnalysisError
+
+CP = "urllib3.connectionpool"
+RS = "urllib3.response"
+CN = "urllib3.connection"
+HTTPERR = "urllib3.exceptions.HTTPError"
+
+# low-level roots a request step can raise (frozen from reading, one reason each)
+ROOTS = {
+    "builtins.OSError": "socket errors incl. ConnectionError, socket.timeout (an OSError since 3.10)",
+    "ssl.SSLError": "TLS handshake / record errors (an OSError subclass, listed for the dedicated SSLError translation)",
+    "urllib3.util.ssl_match_hostname.CertificateError": "hostname mismatch raised by urllib3's matcher (a ValueError)",
+    "http.client.HTTPException": "protocol-state and parse errors of http.client (BadStatusLine, IncompleteRead, ...)",
+    "socket.timeout": "explicit timeout class still named in handlers",
+}
+
+
+def _resp_seeds():
+    return {
+        ("self", "_pool"): AV("unk", sym="f:_pool"),
+        ("self", "_connection"): AV("unk", sym="f:_connection"),
+        ("self", "_original_response"): AV("unk", sym="f:_orig"),
+        ("self", "_fp"): AV("obj", "fp", truth=True, none=False),
+    }
+
+
+class RespRule(BaseRule):
+    """Events of the response's connection hand-back protocol."""
+
+    def __init__(self, fp_raises=()):
+        self.fp_raises = fp_raises
+        self.viol = []
+
+    def call(self, it, st, node, recv, pos, kw):
+        t = ast.unparse(node.func)
+
+        def ok(av=UNK, log=None):
+            s = st.copy()
+            s.log(node, log or f"call {t}")
+            return Out("normal", s, av)
+
+        if t == "self._pool._put_conn":
+            s = st.copy()
+            s.ts["put"] = s.ts.get("put", 0) + 1
+            conn = st.view(st.heap.get(("self", "_connection"), UNK))
+            s.ts["ev"] = s.ts.get("ev", ()) + ("put",)
+            if conn.truth is not True:
+                self.viol.append(("put-without-connection", st))
+            s.log(node, "PUT to pool")
+            return [Out("normal", s, const(None))]
+        if t == "self._connection.close":
+            s = st.copy()
+            s.ts["ev"] = s.ts.get("ev", ()) + ("conn_close",)
+            s.log(node, "close connection")
+            return [Out("normal", s, const(None))]
+        if t in ("self._original_response.close", "self._fp.close", "io.IOBase.close"):
+            s = st.copy()
+            s.ts["ev"] = s.ts.get("ev", ()) + ("fp_close",)
+            s.ts["fp_closed"] = True
+            s.log(node, t)
+            return [Out("normal", s, const(None))]
+        if t in ("self._original_response.isclosed", "self._fp.isclosed"):
+            if st.ts.get("fp_closed"):
+                return [ok(const(True))]
+            return [ok(AV("unk", sym="fp-exhausted"))]
+        if t == "self._fp_read":
+            outs = [ok(AV("unk", sym="data"))]
+            for e in self.fp_raises:
+                s = st.copy()
+                s.log(node, f"_fp_read raises {e.val}")
+                s.ts["fault"] = e.val
+                outs.append(Out("raise", s, e))
+            return outs
+        if t in ("getattr", "hasattr", "len", "str", "is_fp_closed", "self._init_decoder", "log.debug", "is_response_to_head"):
+            return [ok()]
+        return None
+
+
 def run(ctx):
-    pass
+    m = ctx.model
+    HR = f"{RS}.HTTPResponse"
+
+    # ------------------------------------------------------------------ R4
+    R4 = ctx.rule("C01-R4", "HTTPResponse.release_conn gives the connection back at most once: the put is guarded by the back-reference and clears it", "E4")
+    fi = m.method(HR, "release_conn")
+    for label, conn_seed in (("back-reference set", AV("unk", sym="f:_connection")), ("already released", const(None))):
+        rule = RespRule()
+        seeds = _resp_seeds()
+        seeds[("self", "_connection")] = conn_seed
+        outs, it = run_function(m, fi, rule, HR, seeds=seeds)
+        ctx.states += it.budget.steps
+        puts = [o for o in outs if o.st.ts.get("put", 0)]
+        if label == "back-reference set":
+            ctx.sites(R4, len(puts), 1, "paths of release_conn reaching _put_conn")
+            for o in outs:
+                if o.kind == "raise":
+                    continue
+                n = o.st.ts.get("put", 0)
+                conn_after = o.st.view(o.st.heap.get(("self", "_connection"), UNK))
+                ok = n <= 1 and (n == 0 or conn_after.none is True)
+                ctx.ob(R4, fi.qual, f"[{label}] exit {outcome_name(o)} puts={n}", ok,
+                       "" if ok else "the back-reference is still set after the put: a second release would return the slot twice", witness=o.st.witness(), node=fi.node)
+            for what, st in rule.viol:
+                ctx.ob(R4, fi.qual, "put guarded by the back-reference", False, what, witness=st.witness(), node=fi.node)
+            if not rule.viol:
+                ctx.ob(R4, fi.qual, "put guarded by the back-reference", True)
+        else:
+            ok = not puts
+            ctx.ob(R4, fi.qual, f"[{label}] no put", ok, "" if ok else "release_conn puts although the connection was already handed back")
+
+    # ------------------------------------------------------------------ R5
+    R5 = ctx.rule("C01-R5", "every read on the wrapped stdlib response happens inside `with self._error_catcher()` (lexically, or in a helper all of whose callers are)", "E8 region + who-may-call")
+    cls = m.cls(HR)
+    body_reads = ("read", "read1", "_safe_read", "readline", "readinto", "readinto1")
+
+    def is_fp_read(c):
+        f = c.func
+        if not (isinstance(f, ast.Attribute) and f.attr in body_reads):
+            return False
+        base = astq.text(f.value)
+        return base in ("self._fp", "self._fp.fp")
+
+    def in_catcher(node):
+        return astq.inside_with(node, lambda e: isinstance(e, ast.Call) and astq.call_text(e) == "self._error_catcher") is not None
+
+    memo = {}
+
+    def covered(meth, stack=()):
+        """all call sites of self.<meth> inside the class are inside a catcher region or in covered methods"""
+        if meth in memo:
+            return memo[meth]
+        if meth in stack:
+            return True
+        sites = []
+        for name, f in cls.methods.items():
+            for c in astq.calls(f.node):
+                if astq.call_text(c) == f"self.{meth}":
+                    sites.append((name, c))
+        if not sites:
+            memo[meth] = False
+            return False
+        ok = all(in_catcher(c) or covered(name, stack + (meth,)) for name, c in sites)
+        memo[meth] = ok
+        return ok
+
+    nsites = 0
+    for name, f in sorted(cls.methods.items()):
+        for c in astq.calls(f.node):
+            if is_fp_read(c):
+                nsites += 1
+                ok = in_catcher(c) or covered(name)
+                ctx.ob(R5, f.qual, f"read `{astq.text(c)[:60]}`", ok,
+                       "inside the error catcher" if ok else "a raw stdlib read outside the error catcher: its errors reach the caller untranslated and the connection is not discarded", node=c)
+    ctx.sites(R5, nsites, 5, "stdlib-response read sites")
+
+    # ------------------------------------------------------------------ R6
+    R6 = ctx.rule("C01-R6", "_error_catcher: every low-level error from the body becomes a urllib3 HTTPError, the connection is closed before it is released, and it is released at most once; interrupts pass unchanged", "E4 with the @contextmanager inlined around _raw_read's body")
+    fi = m.method(HR, "_raw_read")
+    roots = [exc("socket.timeout"), exc("ssl.SSLError"), exc("http.client.IncompleteRead"), exc("http.client.HTTPException"),
+             exc("builtins.OSError"), BASE_TOP]
+    rule = RespRule(fp_raises=roots)
+    inline = {m.method(HR, "release_conn").qual}
+    seeds = _resp_seeds()
+    seeds[("self", "_connection")] = AV("obj", "conn", truth=True, none=False)
+    seeds[("self", "_pool")] = AV("obj", "pool", truth=True, none=False)
+    seeds[("self", "_original_response")] = AV("obj", "orig", truth=True, none=False)
+    outs, it = run_function(m, fi, rule, HR, inline=inline, seeds=seeds)
+    ctx.states += it.budget.steps
+    faulted = [o for o in outs if o.st.ts.get("fault")]
+    ctx.sites(R6, len(faulted), len(roots), "exceptional exits of _raw_read")
+    by = {}
+    for o in faulted:
+        by.setdefault(o.st.ts["fault"], []).append(o)
+    for root, lst in sorted(by.items()):
+        short = root.rsplit(".", 1)[-1]
+        for o in lst:
+            seq = evs(o)
+            name = outcome_name(o)
+            if root == BASE_TOP.val:
+                ok_tr = o.kind == "raise" and o.val.val == BASE_TOP.val
+                why = "interrupt must propagate unchanged"
+            else:
+                ok_tr = o.kind == "raise" and o.val.val not in (EXT_TOP.val,) and m.issub(o.val.val, HTTPERR)
+                why = "a low-level error leaves the catcher untranslated"
+            ctx.ob(R6, fi.qual, f"fault {short} -> {name}", ok_tr, "" if ok_tr else why, witness=o.st.witness(), node=fi.node)
+            closed_first = "conn_close" in seq and ("put" not in seq or seq.index("conn_close") < seq.index("put"))
+            ctx.ob(R6, fi.qual, f"fault {short}: connection closed before any release", closed_first,
+                   "" if closed_first else f"events {seq}: the connection is not closed (or released first) on an unclean exit", witness=o.st.witness(), node=fi.node)
+            ctx.ob(R6, fi.qual, f"fault {short}: at most one release", seq.count("put") <= 1, f"events {seq}", witness=o.st.witness())
+    # normal exits: released iff the stdlib response reports closed
+    n_norm = 0
+    for o in outs:
+        if o.st.ts.get("fault") or o.kind == "raise":
+            continue
+        ex = o.st.facts.get("fp-exhausted", (None, None))[0]
+        closed = o.st.ts.get("fp_closed") or ex is True
+        seq = evs(o)
+        if ("fp-exhausted" in o.st.facts) or o.st.ts.get("fp_closed"):
+            n_norm += 1
+            ok = (("put" in seq) == bool(closed)) and seq.count("put") <= 1
+            ctx.ob(R6, fi.qual, f"normal exit, response closed={bool(closed)}: released={('put' in seq)}", ok,
+                   "" if ok else "release does not follow the stdlib response's closed state", witness=o.st.witness())
+    ctx.sites(R6, n_norm, 2, "normal exits of _raw_read through the catcher")
+
+    # ------------------------------------------------------------------ R7
+    R7 = ctx.rule("C01-R7", "every disposal API of a response returns the slot: release_conn (R4), read-to-EOF / drain_conn through the catcher (R6), close()", "E4 + call graph")
+    fi = m.method(HR, "drain_conn")
+    reads = [c for c in astq.calls(fi.node) if astq.call_text(c) == "self.read"]
+    ctx.sites(R7, len(reads), 1, "read call in drain_conn")
+    for c in reads:
+        to_eof = not c.args and not any(k.arg == "amt" for k in c.keywords)
+        tries = astq.enclosing_tries(astq.stmt_of(c))
+        caught = set()
+        for t in tries:
+            for h in t.handlers:
+                caught |= set(astq.handler_type_names(h))
+        ok = to_eof and {"HTTPError", "OSError"} <= caught
+        ctx.ob(R7, fi.qual, "drain reads to EOF and swallows only transport/urllib3 errors", ok, f"args={astq.text(c)} caught={sorted(caught)}", node=c)
+    fi = m.method(HR, "close")
+    rule = RespRule()
+    seeds = _resp_seeds()
+    seeds[("self", "_connection")] = AV("obj", "conn", truth=True, none=False)
+    seeds[("self", "_pool")] = AV("obj", "pool", truth=True, none=False)
+    outs, it = run_function(m, fi, rule, HR, inline={m.method(HR, "release_conn").qual}, seeds=seeds)
+    normal = [o for o in outs if o.kind != "raise"]
+    ctx.sites(R7, len(normal), 1, "normal exits of close()")
+    released = [o for o in normal if o.st.ts.get("put")]
+    if released and len(released) == len(normal):
+        ctx.ob(R7, fi.qual, "close() returns the slot on every normal path", True)
+    elif not released:
+        ctx.ob(R7, fi.qual, "no release_conn/_put_conn on any path", False,
+               "HTTPResponse.close() closes the socket but never returns the pool slot", witness=normal[0].st.witness(), node=fi.node)
+    else:
+        o = [o for o in normal if not o.st.ts.get("put")][0]
+        ctx.ob(R7, fi.qual, "some paths of close() do not return the slot", False, "", witness=o.st.witness(), node=fi.node)
+
+    # ------------------------------------------------------------------ R8
+    R8 = ctx.rule("C01-R8", "translation coverage in urlopen: every low-level root raised by a request step is caught and what reaches Retry.increment(error=...) is a urllib3 HTTPError", "E1 lattice + E4 on the handlers")
+    from .c01 import LeaseRule, queue_field, _hot_methods
+    from ..interp import Budget, Interp, State, compute_relevant
+
+    class TransRule(LeaseRule):
+        def __init__(self, qf, root):
+            super().__init__(qf)
+            self.root = root
+            self.errors = []
+
+        def call(self, it, st, node, recv, pos, kw):
+            t = ast.unparse(node.func)
+            if t == "self._make_request":
+                s = st.copy()
+                s.log(node, f"_make_request raises {self.root}")
+                s.ts["rootfault"] = True
+                outs = [Out("raise", s, exc(self.root))]
+                s2 = st.copy()
+                s2.ts["exchange"] = "ok"
+                outs.append(Out("normal", s2, AV("obj", "response", truth=True, none=False)))
+                return outs
+            if t.endswith(".increment") and "error" in kw:
+                self.errors.append((st.view(kw["error"]), st))
+                s = st.copy()
+                return [Out("normal", s, AV("unk", truth=True, none=False)), Out("raise", st.copy(), exc("urllib3.exceptions.MaxRetryError"))]
+            if t in ("self._get_conn",):
+                return [Out("normal", st, AV("obj", "fresh", truth=True, none=False, typ=f"{CN}.HTTPConnection"))]
+            if t in ("self._put_conn", "conn.close", "self._prepare_proxy", "self._get_timeout", "set_file_position", "parse_url",
+                     "connection_requires_http_tunnel", "retries.sleep", "to_str", "_encode_target", "self.is_same_host", "headers.copy",
+                     "headers.update", "Retry.from_int", "sys.exc_info"):
+                return [Out("normal", st, UNK)]
+            return super().call(it, st, node, recv, pos, kw)
+
+    qf = queue_field(m)
+    for cls_q in (f"{CP}.HTTPConnectionPool",):
+        fi = m.method(cls_q, "urlopen")
+        for root, reason in ROOTS.items():
+            rule = TransRule(qf, m.norm(root))
+            it = Interp(m, rule, cls_q, fi.module, frozenset(), budget=Budget(400000))
+            it.relevant = {"e", "new_e", "conn", "clean_exit", "release_this_conn", "err"}
+            st = State()
+            for a in fi.node.args.args[1:] + fi.node.args.kwonlyargs:
+                st.env[it.var(a.arg)] = AV("unk", sym=f"param:{a.arg}")
+            outs = it.exec_block(fi.node.body, [st])
+            ctx.states += it.budget.steps
+            short = root.rsplit(".", 1)[-1]
+            escaped = [o for o in outs if o.kind == "raise" and o.st.ts.get("rootfault") and o.val.val == m.norm(root)]
+            ctx.ob(R8, fi.qual, f"root {short} is caught by a handler around the request", not escaped,
+                   "" if not escaped else f"a raw {short} from a request step leaves urlopen untranslated", witness=escaped[0].st.witness() if escaped else None, node=fi.node)
+            if not rule.errors:
+                ctx.ob(R8, fi.qual, f"root {short} reaches Retry.increment(error=...)", False, "no increment(error=...) call was reached with this root", node=fi.node)
+            seen = set()
+            for av, s in rule.errors:
+                q = av.val if av.kind == "exc" else av.typ
+                if q in seen:
+                    continue
+                seen.add(q)
+                ok = q is not None and m.issub(q, HTTPERR)
+                ctx.ob(R8, fi.qual, f"root {short} -> increment(error={str(q).rsplit('.', 1)[-1]})", ok,
+                       "" if ok else "the error handed to the retry policy (and re-raised / wrapped by it) is not a urllib3 exception", witness=s.witness(), node=fi.node)
+
+    # ------------------------------------------------------------------ R9
+    R9 = ctx.rule("C01-R9", "every handler whose type admits KeyboardInterrupt (bare / BaseException) re-raises on all its paths", "E8")
+    n = 0
+    for f in m.repo_funcs():
+        if "emscripten" in f.module:
+            continue
+        for node in astq.walk_fn(f.node):
+            if isinstance(node, ast.ExceptHandler):
+                names = astq.handler_type_names(node)
+                if "<bare>" in names or "BaseException" in names:
+                    n += 1
+                    ok = astq.all_paths_end_in(node.body, lambda s: isinstance(s, ast.Raise) and s.exc is None)
+                    ctx.ob(R9, f.qual, f"handler `except {', '.join(names)}`", ok,
+                           "" if ok else "an interrupt caught here does not propagate on every path", node=node)
+    ctx.sites(R9, n, 3, "BaseException/bare handlers")
+
+    # ------------------------------------------------------------------ R10
+    R10 = ctx.rule("C01-R10", "closing the pool closes every queued connection: each non-None item taken from the queue is closed and the drain loop ends only on queue.Empty", "E4")
+    fi = m.func(f"{CP}._close_pool_connections")
+    qparam = fi.params()[0]
+
+    class DrainRule(BaseRule):
+        def __init__(self):
+            self.viol = []
+            self.gets = 0
+
+        def call(self, it, st, node, recv, pos, kw):
+            t = ast.unparse(node.func)
+            if t == f"{qparam}.get":
+                self.gets += 1
+                if st.ts.get("open_item"):
+                    self.viol.append(("an item taken from the queue is dropped unclosed before the next get", st))
+                s = st.copy()
+                s.ts["open_item"] = True
+                s.facts.pop("item", None)
+                s.log(node, "queue.get -> item")
+                s2 = st.copy()
+                s2.log(node, "queue.get -> Empty")
+                s2.ts["empty"] = True
+                return [Out("normal", s, AV("unk", sym="item")), Out("raise", s2, exc("queue.Empty"))]
+            if t.endswith(".close") and recv is not None and recv.sym == "item":
+                s = st.copy()
+                s.ts["open_item"] = False
+                s.log(node, "item.close()")
+                return [Out("normal", s, const(None))]
+            return None
+
+    rule = DrainRule()
+    outs, it = run_function(m, fi, rule)
+    ctx.sites(R10, rule.gets, 1, "queue get in the drain loop")
+    # an item known falsy (None placeholder) needs no close
+    real = [(w, s) for w, s in rule.viol if s.facts.get("item", (None, None))[0] is not False]
+    ctx.ob(R10, fi.qual, "each truthy item is closed before the next get", not real, real[0][0] if real else "", witness=real[0][1].witness() if real else None, node=fi.node)
+    for o in outs:
+        if o.kind == "raise" and o.val.val in (EXT_TOP.val, BASE_TOP.val):
+            continue
+        ok = bool(o.st.ts.get("empty")) and o.kind in ("normal", "return")
+        leftover = o.st.ts.get("open_item") and o.st.facts.get("item", (None, None))[0] is not False
+        ctx.ob(R10, fi.qual, f"exit {outcome_name(o)} only after queue.Empty", ok and not leftover,
+               "" if ok else "the drain loop can end while the queue may still hold connections", witness=o.st.witness(), node=fi.node)
+    # HTTPConnectionPool.close drains the swapped-out queue
+    fi = m.method(f"{CP}.HTTPConnectionPool", "close")
+    drains = [c for c in astq.calls(fi.node) if astq.call_text(c) == "_close_pool_connections"]
+    ctx.ob(R10, fi.qual, "close() drains the queue", bool(drains), node=fi.node)
+
+    # ------------------------------------------------------------------ R11
+    R11 = ctx.rule("C01-R11", "HTTPConnection.close delegates to the stdlib close on every path and clears self.sock even if that raises", "E4")
+    fi = m.method(f"{CN}.HTTPConnection", "close")
+
+    class CloseRule(BaseRule):
+        def call(self, it, st, node, recv, pos, kw):
+            if ast.unparse(node.func) == "super().close":
+                s = st.copy()
+                s.ts["ev"] = s.ts.get("ev", ()) + ("super_close",)
+                s2 = st.copy()
+                s2.ts["ev"] = s2.ts.get("ev", ()) + ("super_close!",)
+                return [Out("normal", s, const(None)), Out("raise", s2, EXT_TOP), Out("raise", s2.copy(), BASE_TOP)]
+            if ast.unparse(node.func) == "super":
+                return [Out("normal", st, UNK)]
+            return None
+
+    outs, it = run_function(m, fi, CloseRule(), f"{CN}.HTTPConnection")
+    ctx.sites(R11, len(outs), 2, "exits of HTTPConnection.close")
+    for o in outs:
+        seq = evs(o)
+        sock = o.st.heap.get(("self", "sock"))
+        ok = any(e.startswith("super_close") for e in seq) and sock is not None and sock.kind == "const" and sock.val is None
+        ctx.ob(R11, fi.qual, f"exit {outcome_name(o)}: stdlib close attempted and self.sock cleared", ok,
+               "" if ok else f"events={seq} sock={sock}", witness=o.st.witness(), node=fi.node)
+    # stdlib fact (read from source): http.client.HTTPConnection.close closes the socket and the pending response
+    hc = m.find_method("http.client.HTTPConnection", "close")
+    if hc is None:
+        raise AnalysisError("stdlib http.client.HTTPConnection.close not found")
+    txt = astq.text(hc.node)
+    ctx.ob(R11, hc.qual, "stdlib close() closes the socket and the pending response (source fact)", "sock.close()" in txt and "response.close()" in txt)
